@@ -140,6 +140,45 @@ def run(ctx):
                           good='the wrapped actor\'s commands are appended to the outer Out on every path',
                           bad='%s::%s can return without appending the wrapped actor\'s commands to its own '
                               'output' % (selfty, h), span=c.span)
+                # (b1) ... unchanged: between the wrapped handler and the append nothing else gets a mutable borrow
+                # of the inner Out (no filtering, truncation or reordering of the wrapped actor's commands)
+                ol = None
+                a_last = c.args[-1]
+                cur = a_last['place']['l'] if a_last['k'] in ('copy', 'move') and not a_last['place']['p'] else None
+                for _ in range(4):          # `_t = &mut *_r; _r = &mut inner_out`
+                    ds = [d for d in b.defs.get(cur, []) if d[1] != 'call' and d[2]['rv']['k'] == 'ref'] \
+                        if cur is not None else []
+                    if len(ds) != 1:
+                        break
+                    pl_ = ds[0][2]['rv']['place']
+                    cur = pl_['l']
+                    if not pl_['p']:
+                        ol = cur
+                        break
+                if ol is not None:
+                    after_c = b.reach([c.target])
+                    app_bbs = set(a.bb for a in apps)
+                    refs = list(b.assigns(lambda st: st['rv']['k'] == 'ref' and st['rv'].get('mut')))
+                    borrows = {}
+                    for (i, si, st) in refs:
+                        if st['rv']['place']['l'] == ol:
+                            borrows[st['lhs']['l']] = i
+                    for _ in range(4):
+                        for (i, si, st) in refs:
+                            if st['rv']['place']['l'] in borrows and st['lhs']['l'] not in borrows:
+                                borrows[st['lhs']['l']] = i
+                    touched = []
+                    for c2 in b.calls:
+                        if c2 is c or c2.bb in app_bbs or c2.bb not in after_c:
+                            continue
+                        if any(a['k'] in ('copy', 'move') and a['place']['l'] in borrows and
+                               borrows[a['place']['l']] in after_c for a in c2.args):
+                            touched.append('%s@%s' % (c2.short.split('::')[-1], c2.span))
+                    ctx.check(not touched, 'C15-R2', tag + ':commands-unchanged', b,
+                              good='the wrapped actor\'s commands are not modified before they are appended',
+                              bad='%s::%s modifies the wrapped actor\'s commands before appending them (%s): the '
+                                  'wrapped system emits other commands than the actor alone would' %
+                                  (selfty, h, sorted(set(touched))), span=c.span)
                 if h == 'on_start':
                     continue
                 # (b2) every event of this kind reaches the wrapped actor: with `self` and the state being this
